@@ -581,10 +581,9 @@ func (e *Exec) doMerge(c *Cmd, gsuffix string) string {
 		n, _ := strconv.Atoi(parts[1])
 		e.vecArmFault(parts[0], n)
 		call()
-		extra = " " + e.vecAfterFault()
-		if err == nil {
-			extra += " fired=0"
-		}
+		// whether the armed fault was reached is read off the engine's call counters, never
+		// inferred from the outcome (a swallowed engine error must not look like "did not fire")
+		extra = " fired=" + b01(e.vecFired(parts[0], n)) + " " + e.vecAfterFault()
 	} else {
 		call()
 	}
